@@ -486,6 +486,10 @@ def descr_engine(pid, tier, seed, exe, workdir, V):
                         res['nontrivial'] += 1
                     elif k == 'same descriptors' and not l.endswith(' 0'):
                         res['nontrivial'] += 1
+                    elif k == 'same path':
+                        k = l
+                        if not l.endswith('unknown'):
+                            res['nontrivial'] += 1
                     kinds[k] = kinds.get(k, 0) + 1
                 elif l.startswith('DIFF'):
                     res['mismatches'].append({'op': 'descr', 'impl': l[:800], 'model': '', 'replay': [l[:4000]]})
@@ -553,6 +557,27 @@ def time_engine(pid, tier, seed, exe, workdir, V):
     return res
 
 
+def _join(a, b):
+    for k in ('oracle_failures', 'samples', 'mismatches'):
+        a[k] = a.get(k, []) + b.get(k, [])
+    for k in ('evaluations', 'nontrivial'):
+        a[k] = a.get(k, 0) + b.get(k, 0)
+    if b.get('broken') and not a.get('broken'):
+        a['broken'] = b['broken']
+    a['summary'] = a.get('summary', '') + '; ' + b.get('summary', '')
+    return a
+
+
+def c02_engine(pid, tier, seed, exe, workdir, V):
+    """time keys (Model/Norm.v) + field path resolution (Model/Path.v, lines of the descriptor engine)"""
+    return _join(time_engine(pid, tier, seed, exe, workdir, V), descr_engine(pid, tier, seed, exe, workdir, V))
+
+
+def c19_engine(pid, tier, seed, exe, workdir, V):
+    """directory fuzzer + arguments battery, and the field path walk on run-time struct values (never panics)"""
+    return _join(fuzz_engine(pid, tier, seed, exe, workdir, V), descr_engine(pid, tier, seed, exe, workdir, V))
+
+
 def run_extra(pid, tier, seed, exe, workdir, V):
     mod = EXTRA.get(pid)
     if mod is None:
@@ -560,4 +585,4 @@ def run_extra(pid, tier, seed, exe, workdir, V):
     return mod(pid, tier, seed, exe, workdir, V)
 
 
-EXTRA = {'C02': time_engine, 'C13': time_engine, 'C16': c16_engine, 'C17': descr_engine, 'C14': clone_engine, 'C19': fuzz_engine, 'C09': lock_engine, 'C08': race_engine, 'C12': pair_engine, 'C18': golden_engine}
+EXTRA = {'C02': c02_engine, 'C13': time_engine, 'C16': c16_engine, 'C17': descr_engine, 'C14': clone_engine, 'C19': c19_engine, 'C09': lock_engine, 'C08': race_engine, 'C12': pair_engine, 'C18': golden_engine}
